@@ -172,7 +172,8 @@ def gen_plan(rng, tier, i, seed):
                 break
     return {"world": world, "samples": {"s0": smp}, "build": rng.choice(["hg19", "hg19", "hg38"]), "scenario": scen,
             "hashseed": rng.choice([0, 1, 2, 3]), "advs": [rng.randint(0, 10**9) for _ in range(cfg["advs"])],
-            "shuffle": rng.choice([None, rng.randint(0, 10**6)]), "route": rng.choice(["bam", "yml"])}
+            "shuffle": rng.choice([None, rng.randint(0, 10**6)]), "route": rng.choice(["bam", "yml"]),
+            "realigner_fault": rng.randint(0, 99) if rng.random() < 0.3 else None}
 
 
 def execute(plan, runner, rundir):
@@ -536,13 +537,33 @@ def run_segment(seg):
     db = os.path.join(wd, man["db"][g["name"]])
     prof, cnr = (os.path.join(wd, man["ref_bam"]), man["neutral"]) if plan["route"] == "bam" else \
         (os.path.join(wd, man["profile_yml"]), None)
+    gene = Gene(db, genome=build)
+    units = plan["samples"]["s0"]["genes"][g["name"]]
+    structure, majors, variants, ok = _expected(gene, g, units, shift)
+    if plan.get("realigner_fault") is not None:
+        # fault injection at the third-party realigner: the query for ONE catalogued indel that the sample does
+        # not carry fails ("No solution found", what the realigner's aligner raises).  aldy logs and skips that
+        # indel; the evidence of every other indel - the planted ones - must be gathered all the same
+        import aldy.indelpost
+
+        planted_v = {tuple(v) for v in variants}
+        free = sorted(k for k in gene.mutations if k[1][:3] in ("ins", "del") and tuple(k) not in planted_v)
+        if free:
+            pos_, op_ = free[plan["realigner_fault"] % len(free)]
+            target_pos = pos_ + 1 if op_.startswith("ins") else pos_
+            real_valn = aldy.indelpost.VariantAlignment
+
+            def faulty(target, *a, **k):
+                if target.pos == target_pos and (len(target.alt) > len(target.ref)) == op_.startswith("ins"):
+                    SIM.fire("realigner_fault")
+                    raise ValueError("No solution found")
+                return real_valn(target, *a, **k)
+
+            aldy.indelpost.VariantAlignment = faulty
     rec = O.run_genotype(db, os.path.join(wd, man["samples"]["s0"]), prof, None, cn_region=cnr,
                          genome=build if build != "hg19" else None)
     raw = rec.pop("_raw", None)
     sols = list(raw.values())[0] if raw else []
-    gene = Gene(db, genome=build)
-    units = plan["samples"]["s0"]["genes"][g["name"]]
-    structure, majors, variants, ok = _expected(gene, g, units, shift)
     out = {"error": rec["exc"], "precondition": None, "planted_majors": majors, "planted_variants": [list(v) for v in variants],
            "solutions": [], "reported_majors": [], "planted_major_reported": False,
            "fired": {k: v for k, v in SIM.fired.items() if k != "jitter"},
